@@ -2537,15 +2537,16 @@ func (ts *TokenStore) handleTidy(ctx context.Context, req *logical.Request, data
 							tidyErrors = multierror.Append(tidyErrors, fmt.Errorf("failed to get namespace of child token: %w", err))
 							continue
 						}
-						if childNS != nil {
-							if ts.core.NamespaceSealed(childNS) {
-								// No way to tell if the child still exists,
-								// leave its index entry alone
-								continue
-							}
-							childCtx = namespace.ContextWithNamespace(quitCtx, childNS)
-							te, _ = ts.lookupInternal(childCtx, saltedChild, true, true)
+						if childNS == nil || ts.core.NamespaceSealed(childNS) {
+							// No way to tell if the child still exists, leave
+							// its index entry alone. A namespace the namespace
+							// store does not know need not be deleted: the
+							// namespaces below a sealed namespace are dropped
+							// from memory until that one is unsealed again.
+							continue
 						}
+						childCtx = namespace.ContextWithNamespace(quitCtx, childNS)
+						te, _ = ts.lookupInternal(childCtx, saltedChild, true, true)
 					}
 					// If the child entry is not nil, but the parent doesn't exist, then turn
 					// that child token into an orphan token. Theres no deletion in this case.
